@@ -183,3 +183,42 @@ def c_init(ctx, case):
     ctx.close(g.weights, w, "GMM initial weights == member fractions", rtol=1e-12)
     ctx.close(g.variances, np.maximum(case["floor"], v), "GMM initial variances == member variances", rtol=1e-9,
               atol=bound)
+
+
+def g_everychunk(draw):
+    c = g_points(draw)
+    n = gen.integer(draw, 2, 9 if gen.big() else 6)
+    c["X"] = c["X"][:n] if c["X"].shape[0] >= n else c["X"]
+    return c
+
+
+@REG.obligation("every_row_chunking", g_everychunk, quick=30, thorough=600, shard_size=8)
+def c_everychunk(ctx, case):
+    """ALL 2^(n-1) row-chunkings of the Dask array give the member fractions / member variances and the same distances."""
+    import itertools
+
+    X, cent = case["X"], case["cent"]
+    n = X.shape[0]
+    lab, w, v, margin = member_stats(X, cent)
+    if margin < 1e-9:
+        ctx.discard("assignment tie")
+    m = machine(cent)
+    nonempty = ~np.isnan(v[:, 0])
+    want_d = ref.sq_dists(X, cent)
+    bound = 16 * n * EPS * float((X * X).max()) + 1e-300
+    ctx.note(int(nonempty.sum()) >= 2, "n=%d" % n, "offset:%g" % case["off_mag"])
+    for cuts in itertools.product([0, 1], repeat=n - 1):
+        sizes, cur = [], 1
+        for cbit in cuts:
+            if cbit:
+                sizes.append(cur)
+                cur = 1
+            else:
+                cur += 1
+        sizes.append(cur)
+        dX = sut.dask_rows(X, sizes)
+        gv, gw = m.get_variances_and_weights_for_each_cluster(dX)
+        ctx.close(np.asarray(gw, float), w, "cluster weights for chunks %s" % (sizes,), rtol=1e-12, atol=1e-15)
+        ctx.close(np.asarray(gv, float)[nonempty], v[nonempty], "cluster variances for chunks %s" % (sizes,), rtol=1e-9, atol=bound)
+        ctx.close(np.asarray(m.transform(dX).compute()), want_d, "distances for chunks %s" % (sizes,), rtol=1e-12, atol=0)
+        ctx.event("chunkings-tried")
